@@ -10,41 +10,48 @@
         "exp"     b = v' , v' = beta v + (1-beta) mean(R)   (v' = mean(R) on the first step): stateful
         "extra"   b[r] = X[r]   (greedy-rollout baseline values travelling with the batch)
         "critic"  b[r] = X[r]   (value prediction), bl_loss = mean((X - R)^2), dloss/dX[r] = 2 (X[r]-R[r]) / n
+        "warmup"  b = alpha * v2' + (1-alpha) * v'  with v' the warm-up EMA (beta) and v2' the inner baseline's EMA (beta2),
+                  both advanced on every step of the mixed regime 0 < alpha < 1 (WarmupBaseline.eval): stateful
         "shared"  b[r] = mean of R over the rollouts of r's instance; rows are laid out
                   rollout-major: row r belongs to instance ((r-1) mod B) + 1   (see Layout.tla)
    The history variable `hist` lists the (R, Lneg, X) triples of all steps so far.   *)
 EXTENDS Rat, Naturals, FiniteSets, TLC
 
-CONSTANTS Kinds, NRows, GroupB, RVals, LVals, XVals, MaxSteps, BetaN, BetaD
+CONSTANTS Kinds, NRows, GroupB, RVals, LVals, XVals, MaxSteps, BetaN, BetaD,
+          Beta2N, Beta2D, AlphaN, AlphaD     \* kind "warmup": inner baseline EMA(Beta2), weight alpha = AlphaN / AlphaD
 
-VARIABLES kind, hist, v, adv, loss, gX
-vars == <<kind, hist, v, adv, loss, gX>>
+VARIABLES kind, hist, v, v2, adv, loss, gX
+vars == <<kind, hist, v, v2, adv, loss, gX>>
 Rows == 1..NRows
 Beta == <<BetaN, BetaD>>
+Beta2 == <<Beta2N, Beta2D>>
+Alpha == <<AlphaN, AlphaD>>
 Group(r) == ((r - 1) % GroupB) + 1
 RMeanOver(f, S) == RDiv(RSumSeq([i \in 1..Cardinality(S) |->
                         RInt(f[CHOOSE x \in S : Cardinality({y \in S : y < x}) = i - 1])]), RInt(Cardinality(S)))
 
-Baseline(k, vnew, R, X) ==
+Baseline(k, vnew, v2new, R, X) ==
   [r \in Rows |-> CASE k = "no" -> <<0, 1>>
                     [] k = "exp" -> vnew
+                    [] k = "warmup" -> RAdd(RMul(Alpha, v2new), RMul(RSub(RInt(1), Alpha), vnew))
                     [] k = "extra" -> RInt(X[r])
                     [] k = "critic" -> RInt(X[r])
                     [] k = "shared" -> RMeanOver(R, {q \in Rows : Group(q) = Group(r)})]
 
-Init == /\ kind \in Kinds /\ hist = <<>> /\ v = <<>> /\ adv = <<>> /\ loss = <<0, 1>> /\ gX = <<>>
+Init == /\ kind \in Kinds /\ hist = <<>> /\ v = <<>> /\ v2 = <<>> /\ adv = <<>> /\ loss = <<0, 1>> /\ gX = <<>>
+Ema(beta, old, R) == IF old = <<>> THEN RMeanOver(R, Rows)
+                     ELSE RAdd(RMul(beta, old), RMul(RSub(RInt(1), beta), RMeanOver(R, Rows)))
 TrainStep(R, Lneg, X) ==
-  LET vnew == IF kind # "exp" THEN v
-              ELSE IF v = <<>> THEN RMeanOver(R, Rows)
-              ELSE RAdd(RMul(Beta, v), RMul(RSub(RInt(1), Beta), RMeanOver(R, Rows)))
-      b == Baseline(kind, vnew, R, X)
+  LET vnew == IF kind \in {"exp", "warmup"} THEN Ema(Beta, v, R) ELSE v
+      v2new == IF kind = "warmup" THEN Ema(Beta2, v2, R) ELSE v2
+      b == Baseline(kind, vnew, v2new, R, X)
       a == [r \in Rows |-> RSub(RInt(R[r]), b[r])]
       \* -(1/n) sum adv * L  with L = -Lneg
       reinforce == RDiv(RSumSeq([r \in Rows |-> RMul(a[r], RInt(Lneg[r]))]), RInt(NRows))
       blloss == IF kind = "critic"
                 THEN RDiv(RSumSeq([r \in Rows |-> RInt((X[r] - R[r]) * (X[r] - R[r]))]), RInt(NRows))
                 ELSE <<0, 1>>
-  IN /\ v' = vnew /\ adv' = a
+  IN /\ v' = vnew /\ v2' = v2new /\ adv' = a
      /\ loss' = RAdd(reinforce, blloss)
      /\ gX' = IF kind = "critic" THEN [r \in Rows |-> RNorm(<<2 * (X[r] - R[r]), NRows>>)] ELSE <<>>
      /\ hist' = Append(hist, <<R, Lneg, X>>)
